@@ -77,6 +77,14 @@ func (w *c05world) abs(tok string) string {
 
 // arg is the name as the caller passes it: absolute, or relative to the endpoint
 func (w *c05world) arg(form, tok string) string {
+	// "abs/" and "rel/": the same name with a trailing slash (a collection addressed the way servers spell collections)
+	if strings.HasSuffix(form, "/") {
+		if n := w.arg(strings.TrimSuffix(form, "/"), tok); n != "" && !strings.HasSuffix(n, "/") {
+			return n + "/"
+		} else {
+			return n
+		}
+	}
 	a := w.abs(tok)
 	if form == "abs" {
 		return a
